@@ -61,11 +61,28 @@ def fsm_runs(mode):
 
 
 FSM = {"main": {"sources": MC + ["mc/darwin.c", "checks/fsm.c"], "modes": ["c14-steps", "c14-closure", "c15-steps", "c15-closure"]}}
+def c16_runs(tier):
+    runs = []
+    for a in (0, 1):
+        for part in range(7):
+            runs.append(("main", ["--a", str(a), "--b", "0", "--part", str(part), "--nparts", "7"]))
+    runs.append(("main", ["--a", "0", "--b", "1", "--depth", "8" if tier == "thorough" else "6"]))
+    runs.append(("main", ["--a", "1", "--b", "1", "--depth", "8" if tier == "thorough" else "6"]))
+    return runs
+
+
 EMIT = {"main": {"sources": MC + ["checks/emit.c"], "modes": ["c06", "c10"]}}
 OBS = {"main": {"sources": MC + ["checks/obs.c"], "modes": ["c07", "c19"]}}
 PROTO = {"main": {"sources": MC + ["checks/proto.c"], "modes": ["c02", "c03", "c09"]}}
 
 PROPS = {
+    "C16": {
+        "builds": {"main": {"sources": MC + ["checks/table.c"]}}, "runs": c16_runs, "level": "model_checking",
+        "technique": "explicit-state BFS to fixpoint over the real 16-slot session table (time-abstracted key) from the empty table and 40 near-full start layouts, product with a dictionary model checked after every operation",
+        "assumptions": ["3 probe keys chosen to collide (same MAC/different generation, MACs differing in the last or first byte) + up to 16 fillers",
+                        "fixpoint runs use clock advances {30,31,61} s; {1,59,60} s are added in a depth-bounded run (depth 6 quick / 8 thorough)",
+                        "created_ts is excluded from the key (never read by the core)"],
+    },
     "C14": {
         "builds": FSM, "runs": fsm_runs("c14"), "level": "model_checking",
         "technique": "exhaustive single-step sweep (3 states x inputs -128..255 x 6 elapsed classes) + timed explicit-state closure with the Darwin glue and the periodic tick, product with the reference state machine, two clock origins",
